@@ -4,3 +4,4 @@ INVARIANT DesignHolds
 INVARIANT DeviationsFail
 INVARIANT SelfConforms
 INVARIANT ClientDesign
+INVARIANT ConfigIndependent
